@@ -177,6 +177,19 @@ def o_geom(case, T):
             "fn_intersects": lambda: OG.intersects(geoms[0], geoms[1]),
         }
         st_, val = _run(fns[op])
+        if op != "fn_intersects":
+            # the collection may be any Iterable: a tuple, a generator, an iterator, a map object - one-shot
+            # iterables must give the same verdict and the same value as the list
+            fn1 = {"multigeom": OG.multigeom, "common_crs": OG.common_crs, "unary_union": OG.unary_union, "unary_intersection": OG.unary_intersection}[op]
+            for cname, mk in (("tuple", lambda: tuple(geoms)), ("generator", lambda: (g for g in geoms)), ("iterator", lambda: iter(geoms)), ("map", lambda: map(lambda g: g, geoms))):
+                st2, val2 = _run(lambda: fn1(mk()))
+                require(st2 == st_, "%s(%s of the operands) %s, %s(list of the same operands) %s", op, cname, "returned %s" % str(val2)[:60] if st2 == "ok" else "raised %s" % type(val2).__name__, op, "returned" if st_ == "ok" else "raised %s" % type(val).__name__)
+                if st_ == "ok":
+                    same_val = (val2 == val) if not isinstance(val, OG.Geometry) else (isinstance(val2, OG.Geometry) and _same_geom(val2.geom, val.geom) and val2.crs == val.crs and (val2.crs is None) == (val.crs is None))
+                    require(bool(same_val), "%s(%s) = %s differs from %s(list) = %s", op, cname, str(val2)[:60], op, str(val)[:60])
+                else:
+                    require(type(val2) is type(val), "%s(%s) raised %s, %s(list) raised %s", op, cname, type(val2).__name__, op, type(val).__name__)
+            T.cls("iterable_forms_agree")
     elif op == "split":
         st_, val = _run(lambda: list(geoms[0].split(geoms[1])))
     else:
@@ -288,8 +301,24 @@ def e_relations(tier):
                     yield {"op": op, "tags": tp, "kinds": [name, "fwd" if x is a else "rev"], "shapes": [list(x), list(y)]}
 
 
+# members that are not "union-normalised": a union of ONE such member is not the member itself
+NOT_NORMALISED = {
+    "overlapping_multipolygon": ("MultiPolygon", [[[[0, 0], [3, 0], [3, 3], [0, 3], [0, 0]]], [[[2, 2], [5, 2], [5, 5], [2, 5], [2, 2]]]]),
+    "edge_adjacent_multipolygon": ("MultiPolygon", [[[[0, 0], [2, 0], [2, 2], [0, 2], [0, 0]]], [[[2, 0], [4, 0], [4, 2], [2, 2], [2, 0]]]]),
+    "self_crossing_line": ("LineString", [[0, 0], [4, 4], [4, 0], [0, 4]]),
+    "repeated_multipoint": ("MultiPoint", [[1, 1], [1, 1], [2, 3]]),
+    "overlapping_multiline": ("MultiLineString", [[[0, 0], [4, 0]], [[2, 0], [6, 0]]]),
+    "collection_of_overlapping": ("GeometryCollection", [("Polygon", [[[0, 0], [3, 0], [3, 3], [0, 3], [0, 0]]]), ("Polygon", [[[1, 1], [4, 1], [4, 4], [1, 4], [1, 1]]])]),
+}
+
+
 def e_nary(tier):
     pairs = _tag_pairs()
+    # collections of a single member
+    for op in ("unary_union", "unary_intersection", "common_crs"):
+        for tag in [simple_tag(lab) for lab in LABELS] + [{"label": "4326", "spell": "wkt2"}]:
+            for name, spec in list(NOT_NORMALISED.items()) + [("polygon", GALLERY_A["polygon"]), ("polygon_hole", GALLERY_A["polygon_hole"])]:
+                yield {"op": op, "tags": [tag], "kinds": [name], "shapes": [list(spec)]}
     for op in NARY:
         for n in ((2,) if op == "fn_intersects" else (2, 3, 4)):
             for tp in pairs:
